@@ -892,7 +892,35 @@ impl C15 {
         ev.rep.fingerprint = fnv(fnv(0, b"sweep"), &[chunk as u8, l as u8]);
     }
 
+    /// One very long element (a status or error line, or a bulk, around and above 64 KiB), alone, inside an array or
+    /// followed by a small frame: fed whole, as a few prefixes (EOF) and in a few fragmentations. Per-byte loops are
+    /// not affordable at this size; the cut points are the ends of the stream, the 64 KiB mark and tape-drawn ones.
+    fn run_long(&self, ev: &mut Ev, src: &mut Src) {
+        let len = *src.pick(&[65_535usize, 65_536, 65_537, 70_000, 200_000, 66_000]);
+        let body: Vec<u8> = (0..len).map(|i| b'a' + (i % 23) as u8).collect();
+        let mut v = match src.below(3) { 0 => V::Simple(body), 1 => V::Error(body), _ => V::Bulk(Some(body)) };
+        if src.chance(1, 3) { v = V::Array(Some(vec![V::Int(1), v])); }
+        let mut s = Vec::new();
+        enc(&v, &mut s, &mut Vec::new());
+        if src.chance(1, 2) { enc(&V::Simple(b"OK".to_vec()), &mut s, &mut Vec::new()); }
+        let n = s.len();
+        ev.probe("long_element_over_64k");
+        ev.rep.log(ev.ctx.trace, || format!("long element: {} bytes of stream", n));
+        let Some((rs, whole)) = ev.eval_whole(&s) else { return };
+        let mut marks: Vec<usize> = vec![1, 2, 8, 65_535, 65_536, 65_537, 65_540, 65_550, n / 2, n - 1, n - 2, n - 3, n - 6];
+        for _ in 0..4 { marks.push(1 + src.idx(n - 1)); }
+        marks.retain(|m| *m >= 1 && *m < n); marks.sort(); marks.dedup();
+        for m in &marks { if ev.stop { return; } if ev.eval_whole(&s[..*m]).is_some() { ev.fault("eof_mid_frame"); } }
+        for m in &marks { if ev.stop { return; } ev.eval_cuts(&s, &rs, &whole, &[*m]); ev.fault("split_in_2"); }
+        for w in marks.windows(3).step_by(2) { if ev.stop { return; } ev.eval_cuts(&s, &rs, &whole, w); ev.fault("split_in_3plus"); ev.probe("fragmented_4plus"); }
+        ev.rep.nontrivial = true;
+        ev.rep.fingerprint = fnv(fnv(0, b"long"), &[(len % 251) as u8, (n % 251) as u8]);
+        ev.rep.sub_fps.push(ev.rep.fingerprint);
+        ev.rep.sample = Some(json!({"mode": "gen/long-element", "bytes": n, "cut_points": marks.len()}));
+    }
+
     fn run_gen(&self, ev: &mut Ev, src: &mut Src) {
+        if src.chance(1, 10) { return self.run_long(ev, src); }
         // ---- a valid stream
         let deep = if src.below(8) == 7 { 8 + src.below(57) as usize } else { 0 };
         let mut frames: Vec<V> = Vec::new();
